@@ -273,3 +273,70 @@ func VerifC11_BatchSeq() {
 	}
 	zzverif.Reach("C11-batch-seq")
 }
+
+// verifC11startPinned builds, with REAL operations on the empty store, a start
+// state in which chunk a0 carries more than one pin (the histories of
+// VerifC11_History are too short to get there and then go on):
+//
+//	0: Put(ModePutUploadPin, a0) without file context, then Set(ModeSetPin, a0)
+//	1: Put(ModePutUpload, a0), Set(ModeSetPin, a0) twice, all under file context root = a0
+//	2: Put(ModePutUploadPin, a0), Set(ModeSetPin, a0) twice (three pins) and
+//	   Put(ModePutUploadPin, a1) (one pin), without file context
+//
+// The operations have to succeed (no file context, or the subject is the root
+// itself). The pin counters reached are not asserted (C15); the marker
+// "C11-start-state-chunk-pinned-more-than-once" (listed in the evidence file
+// when reached) shows that the state is built.
+func verifC11startPinned(db *DB, ref *verifC11ref, variant int) {
+	r := 0
+	if variant == 1 {
+		r = 1
+	}
+	ctx := verifC11rootCtx(r)
+	mode := storage.ModePutUploadPin
+	if variant == 1 {
+		mode = storage.ModePutUpload
+	}
+	d0 := zzverif.BytesN("start-data", 2)
+	exist, err := db.Put(ctx, mode, boson.NewChunk(verifC11addr(0), d0))
+	zzverif.Assert(err == nil, "Put succeeds")
+	want := ref.put([]int{0}, [][]byte{d0})
+	zzverif.Assert(len(exist) == 1 && exist[0] == want[0], "Put: 'already existed' exactly for chunks already present")
+	npins := 1
+	if variant >= 1 {
+		npins = 2
+	}
+	for i := 0; i < npins; i++ {
+		zzverif.Assert(db.Set(ctx, storage.ModeSetPin, verifC11addr(0)) == nil, "Set(pin) of a present chunk succeeds")
+	}
+	if variant == 2 && ref.k > 1 {
+		d1 := zzverif.BytesN("start-data", 2)
+		_, err := db.Put(ctx, storage.ModePutUploadPin, boson.NewChunk(verifC11addr(1), d1))
+		zzverif.Assert(err == nil, "Put succeeds")
+		ref.put([]int{1}, [][]byte{d1})
+	}
+	if verifC11pins(db, 0) > 1 {
+		zzverif.Reach("C11-start-state-chunk-pinned-more-than-once")
+	}
+	verifC11observe(db, ref)
+}
+
+// VerifC11_PinnedStart: the histories of VerifC11_History (single-chunk puts in
+// all four modes, sets remove/pin/unpin/sync, gets in all four modes, with or
+// without a file context) continued from a start state in which a chunk is
+// pinned more than once, so that removals that only take a pin away, removals
+// of the last pin and puts/lookups after them are reached. Same reference and
+// same assertions as VerifC11_History.
+func VerifC11_PinnedStart() {
+	steps := zzverif.Param("steps-from-pinned-start", 2, 2)
+	starts := zzverif.Param("pinned-start-states", 1, 3)
+	K := zzverif.Param("addresses", 2, 2)
+	R := zzverif.Param("roots", 2, 2)
+	db, ref := verifC11start(K)
+	verifC11startPinned(db, ref, zzverif.Choose("start", starts))
+	for s := 0; s < steps; s++ {
+		in := verifC11draw(3, K, R)
+		verifC11step(db, ref, in)
+	}
+	zzverif.Reach("C11-pinned-start-history")
+}
